@@ -22,9 +22,17 @@ for d in sorted(glob.glob(os.path.join(root, '*'))):
             if os.path.exists(cl):
                 keys = re.findall(r'violation detail \[([^\]]+)\]', open(cl).read())[:8]
             ver['checks'][m.group(1)] = {'exit': int(m.group(2)), 'violations': int(m.group(3)), 'keys': keys}
+    rl = os.path.join(d, 'recheck.log')
+    if os.path.exists(rl):
+        txt = open(rl).read(); rc = {'ran': 'RECHECK_ONLY=1 bin/verify_seed.sh %s <checks>  (after the check was strengthened: fresh worktree of /repo HEAD + patch.diff, checks only)' % os.path.basename(d), 'checks': {}}
+        for m in re.finditer(r'RESULT check=(\S+) exit=(\d+) violations=(\d+)', txt):
+            rc['checks'][m.group(1)] = {'exit': int(m.group(2)), 'violations': int(m.group(3)), 'keys': re.findall(r'violation detail \[([^\]]+)\]', txt)[:8]}
+        ver['recheck_after_strengthening'] = rc
     meta['coordinator_verification'] = ver
     meta.setdefault('breaks_property', meta.get('property'))
     json.dump(meta, open(mj, 'w'), indent=1)
     caught = [k for k, v in ver.get('checks', {}).items() if v['violations'] > 0]
+    if not caught and ver.get('recheck_after_strengthening'):
+        caught = ['%s(after strengthening)' % k for k, v in ver['recheck_after_strengthening']['checks'].items() if v['violations'] > 0]
     rows.append((os.path.basename(d), meta.get('property'), ver.get('compile'), ver.get('stable_tests'), ver.get('demo_with_change_exit'), ver.get('demo_without_change_exit'), ','.join(caught) or ('MISSED' if ver.get('checks') else 'not run')))
 for r in rows: print(' | '.join(str(x) for x in r))
